@@ -495,23 +495,58 @@ def obj_digest(m):
     return tuple(out)
 
 
+def public_state(m):
+    """the state the property observes: class, M, K and the emitted table"""
+    sym = np.asarray(m.symbols)
+    return (type(m).__name__, repr(m.M), repr(float(m.K)), str(sym.dtype), sym.shape, sym.tobytes())
+
+
+def coherent_after_invalid_call(chk, lab, m, spec, what):
+    """tools/INVALID_CALL_POLICY.md: an invalid call is free as a call; afterwards the object must be a
+    coherent modulator for the REPORTED state (symbols, M, K) and valid calls must follow that state.
+    Returns False when a relation fails."""
+    sym = np.asarray(m.symbols)
+    case = dict(spec, what="invalid_index", after=what)
+    prob = table_problem(m, int(sym.size)) if sym.ndim == 1 and sym.size else ("wrong_size", repr(sym.shape))
+    if prob is not None:
+        chk.fail(("after_invalid_call", what, "table_" + prob[0]), case, observed=prob[1],
+                 expected="M = len(symbols), K = log2 M, distinct finite points of unit mean energy")
+        return False
+    pr = _probe(sym)
+    ok = True
+    for op in ("mod", "demod"):
+        r = _do(m, op, pr)
+        if r is not None:
+            ok = False
+            chk.fail(("after_invalid_call", what, "valid_%s_does_not_follow_reported_table" % op), case,
+                     observed=r[0], expected=r[1])
+    return ok
+
+
 def check_invalid_indexes(chk, lab, m, M, spec):
-    before = obj_digest(m)
+    """returns False when the rest of the per-object checks must be skipped (the reported
+    configuration is no longer the one this unit enumerates, or it is incoherent)"""
+    before, dig = public_state(m), obj_digest(m)
+    # C01: "Unsupported cardinalities are rejected with an exception at construction and indexes >= M
+    # with ValueError, never by emitting symbols."  -> the ValueError is a hard requirement
     _check_invalid_indexes(chk, lab, m, M, spec)
+    chk.outcome("invalid_call", ("modulate(index>=M)", "raised:ValueError required",
+                                 "object_changed" if obj_digest(m) != dig else "object_unchanged"))
+    ok = coherent_after_invalid_call(chk, lab, m, spec, "modulate_invalid_index")
     if hasattr(m, "setPhaseOffset"):
-        # no validation exists for the offset: a value that cannot be an angle must at least not
-        # leave a half-updated object behind
+        # the property says nothing about a phase offset that is not a number: free as a call
         for bad in ("x", None):
             chk.count("eval_invalid_index_calls")
+            d0 = obj_digest(m)
             try:
                 m.setPhaseOffset(bad)
-            except Exception:  # noqa
-                continue
-            chk.fail(("setPhaseOffset", "invalid_value_accepted"), dict(spec, what="invalid_index", value=repr(bad)))
-    if obj_digest(m) != before:
-        chk.fail(("error_path", lab, "object_changed_by_failed_call"), dict(spec, what="invalid_index"),
-                 observed=[e for e in obj_digest(m) if e not in before][:2],
-                 expected="object exactly as before the rejected calls")
+                how = "accepted"
+            except Exception as e:  # noqa
+                how = "raised:" + type(e).__name__
+            chk.outcome("invalid_call", ("setPhaseOffset(%r)" % (bad,), how,
+                                         "object_changed" if obj_digest(m) != d0 else "object_unchanged"))
+            ok = coherent_after_invalid_call(chk, lab, m, spec, "setPhaseOffset") and ok
+    return ok and public_state(m) == before
 
 
 def _check_invalid_indexes(chk, lab, m, M, spec):
@@ -783,8 +818,12 @@ def check_object(chk, u, hist):
         chk.nontriv((kind, M, bfs.digest(sym, 9)))
         if first_part:
             check_roundtrip(chk, lab, m, M, spec)
+            go_on = False
             with chk.guard(("modulate", "invalid_index", lab), dict(spec, what="object")):
-                check_invalid_indexes(chk, lab, m, M, spec)
+                go_on = check_invalid_indexes(chk, lab, m, M, spec)
+            if not go_on:
+                chk.count("objects_reconfigured_by_invalid_calls")
+                return
             with chk.guard(("buffer_reuse", lab), dict(spec, what="object")):
                 check_buffer_reuse(chk, lab, m, M, spec)
         check_detection(chk, lab, m, M, spec, level)
@@ -844,7 +883,7 @@ def run_interplay(chk):
                 for nm in (first, second):
                     objs[nm] = build(*specs[nm])
                     probes[nm] = _probe(objs[nm].symbols)
-                    digests[nm] = obj_digest(objs[nm])
+                    digests[nm] = public_state(objs[nm])
                 ops = [(first, "mod"), (second, "mod"), (first, "demod"), (second, "demod")]
                 for perm in itertools.permutations(ops):
                     seq = list(perm) + [(first, "peek"), (second, "peek")] + list(perm)
@@ -859,10 +898,10 @@ def run_interplay(chk):
                         continue
                     break
                 for nm in (first, second):
-                    if obj_digest(objs[nm]) != digests[nm]:
+                    if public_state(objs[nm]) != digests[nm]:
                         chk.fail(("interplay", "pair", "object_changed_by_calls_on_other_object"), dict(case, object=nm))
                     lone = build(*specs[nm])
-                    if obj_digest(lone) != digests[nm]:
+                    if public_state(lone) != digests[nm]:
                         chk.fail(("interplay", "pair", "fresh_object_differs_from_earlier_one"), dict(case, object=nm))
             chk.outcome("interplay", ("pair", first, second))
     # (3) alternative entry points
@@ -915,7 +954,7 @@ def run_interplay(chk):
                 ref = F.PSK(M, 1.1)
                 ref.setPhaseOffset(phi)
                 chk.count("eval_interplay_ops")
-                if obj_digest(m) != obj_digest(ref):
+                if public_state(m) != public_state(ref):
                     chk.fail(("interplay", "chain", "table_depends_on_earlier_setPhaseOffset_calls"),
                              dict(case, step=step, offsets=[repr(x) for x in chain[:step + 1]]),
                              observed=np.asarray(m.symbols)[:4], expected=np.asarray(ref.symbols)[:4])
